@@ -36,7 +36,7 @@ def make_server(kind, cfg):
     return cls(("127.0.0.1", 0), logRequests=False, config=cfg)
 
 REP = {"letter": "aZqB", "digit": "07", "underscore": "_", "dot": ".", "space": " ", "semicolon": ";", "dash": "-", "slash": "/",
-       "newline": "\n", "nul": "\x00", "nonascii_letter": "éя名", "nonascii_digit": "٣２"}
+       "newline": "\n", "nul": "\x00", "nonascii_letter": "éя名\ud83d", "nonascii_digit": "٣２"}
 LOG = {"on": False, "imports": [], "audit": []}
 builtins._verif_marks = []
 _real_import = builtins.__import__
@@ -114,11 +114,17 @@ def run_one(word, dk, rnd, canary=False):
            "spath": spath, "cpath": cpath}
     resp_text = json.dumps({"jsonrpc": "2.0", "id": 1, "result": x})
     req_text = json.dumps({"jsonrpc": "2.0", "id": 1, "method": "ok", "params": [x]})
+    derived = rnd.random() < 0.3
     for on in (True, False):
         cfg = jsonrpclib.config.Config(use_jsonclass=on)
+        if derived:
+            cfg = cfg.copy()             # a working copy derived from the application's configuration (as the library does itself)
         tag = "on" if on else "off"
         if registered:
-            cfg.classes.add(LocalCanary, name)
+            if hasattr(cfg.classes, "add"):
+                cfg.classes.add(LocalCanary, name)
+            else:
+                cfg.classes[name or LocalCanary.__name__] = LocalCanary      # (Config.copy() hands out a plain dict)
         if cpath == "loads" and on and il_points:
             # two threads decode the same payload, the second one between two lines of the first (after a valid bean has
             # been decoded by this process): both behave as a single decoder does
@@ -172,12 +178,14 @@ def run_one(word, dk, rnd, canary=False):
         out, exc2, nimp2, marks2 = observe(lambda: disp._marshaled_dispatch(req_text))
         code, verbatim = 0, False
         try:
+            if out:
+                out.encode("utf-8")      # a reply that cannot be put on the wire is no answer
             r = json.loads(out) if out else None
             if isinstance(r, dict) and isinstance(r.get("error"), dict):
                 code = r["error"].get("code")
             elif isinstance(r, dict):
                 verbatim = enc(r.get("result")) == enc(x) and len(calls) == 1 and enc(calls[0][0]) == enc(x)
-        except (TypeError, ValueError):
+        except (TypeError, ValueError):          # (UnicodeEncodeError is a ValueError)
             code = -1
         if spath in ("simple", "pooled"):
             try:
